@@ -47,6 +47,11 @@ TEMPLATES = ["({e}) = 1", "{e} = 1", "@{e}\ndef f():\n    pass", 'x = f"{{{e}}}"
 CONTEXTS = ["{t}", "{t}", "behavior B_():\n{T}\n    wait", "monitor M_():\n{T}\n    wait", "scenario S_():\n    setup:\n{TT}\n        ego = new Object",
             "scenario S_():\n    compose:\n{TT}\n        wait", "def f_():\n{T}", "class C_:\n{T}", "behavior B_():\n    try:\n{TT}\n        wait\n    interrupt when x:\n{TT}\n        wait",
             "behavior B_():\n    precondition: {e1}\n    wait", "if x:\n{T}"]
+# every specifier form: after a bare name (a forgotten `new`) the parser must report a located error
+SPECIFIERS = ["at p", "in r", "on r", "contained in r", "offset by v", "offset along d by v", "left of p", "right of p by 1", "ahead of p", "behind p by 2",
+              "above p", "below p by 1", "beyond p by v", "beyond p by v from q", "visible", "visible from p", "not visible", "not visible from p",
+              "following f for 3", "following f from p for 3", "facing h", "facing toward p", "facing away from p", "facing directly toward p",
+              "facing directly away from p", "apparently facing h", "apparently facing h from p", "with prop 3", "with behavior B", "at p, facing h"]
 TAILS = ["(", "[", "{", '"""', "'''", "x = ", "\\", "if x:", "    ", "\t x", "new Object at", "def f(", 'f"{', 'f"{x!', "x = (1,\n", "class C:",
          "behavior B():", "require", "try:\n    pass\ninterrupt when", "\x00", "@", "lambda", "x = 1 if", "for x in", "    pass", ")"]
 
@@ -219,6 +224,8 @@ _REAL_EXEC = []
 
 
 def _tmpdir():
+    if _TMP and not os.path.isdir(_TMP[0]):
+        _TMP.pop()
     if not _TMP:
         _TMP.append(tempfile.mkdtemp(prefix="verif-c10f-"))
     return _TMP[0]
